@@ -98,7 +98,7 @@ func classifyC04(c progCase, m *d2ast.Map, base string, errMsg string) string {
 	}
 	// (a) the formatter moves board blocks behind all other content of their map, which
 	//     changes what scenarios/steps inherit ("as declared before the scenario")
-	notLast, upperKey, emptyBoard := false, false, false
+	notLast, layersNotLast, upperKey, emptyBoard := false, false, false, false
 	d2ast.Walk(m, func(n d2ast.Node) bool {
 		k, ok := n.(*d2ast.Key)
 		if !ok || k == nil || k.Key == nil || len(k.Key.Path) != 1 || k.Value.Map == nil {
@@ -117,17 +117,25 @@ func classifyC04(c progCase, m *d2ast.Map, base string, errMsg string) string {
 	d2ast.Walk(m, func(n d2ast.Node) bool {
 		switch n := n.(type) {
 		case *d2ast.Map:
-			sawBoard := false
+			sawBoard, sawLayers := false, false
 			for _, nb := range n.Nodes {
 				if nb.MapKey == nil {
 					continue
 				}
-				isBoard := false
+				isBoard, isLayers := false, false
 				if k := nb.MapKey.Key; k != nil && len(k.Path) > 0 && len(nb.MapKey.Edges) == 0 {
 					switch strings.ToLower(k.Path[0].Unbox().ScalarString()) {
-					case "layers", "scenarios", "steps":
+					case "scenarios", "steps":
+						// (only these inherit what precedes them: moving a layers block is harmless)
 						isBoard = true
+					case "layers":
+						isLayers = true
 					}
+				}
+				if isLayers {
+					sawLayers = true
+				} else if sawLayers {
+					layersNotLast = true
 				}
 				if isBoard {
 					sawBoard = true
@@ -156,6 +164,12 @@ func classifyC04(c progCase, m *d2ast.Map, base string, errMsg string) string {
 	}
 	if notLast {
 		return base + ":board-not-last"
+	}
+	if layersNotLast && strings.Contains(string(c.entry()), "*") {
+		// a connection glob that creates its own target (`* -> a.a`) is applied again to the new
+		// object only when something after it changes the field count: a layers block standing
+		// before or after it makes the difference
+		return base + ":layers-not-last-and-glob"
 	}
 	if emptyBoard {
 		return base + ":empty-board-map"
@@ -207,7 +221,7 @@ func genC04(t *rapid.T) progCase {
 				}
 			}
 		}
-		return single(txt, "diagram")
+		return single(commentLines(t, txt), "diagram")
 	case 1:
 		return genFileSet(t, false)
 	default:
@@ -227,8 +241,26 @@ func genC04(t *rapid.T) progCase {
 		if pos == len(parts) {
 			sb.WriteString(board)
 		}
-		return single(sb.String(), "diagram-with-board")
+		return single(commentLines(t, sb.String()), "diagram-with-board")
 	}
+}
+
+// commentLines appends a line comment to some lines (after a closing brace, after a
+// statement): comment placement is the formatter's business, the diagram must not change.
+func commentLines(t *rapid.T, txt string) string {
+	if gen.Pick(t, "comments", 1, 1) == 0 {
+		return txt
+	}
+	lines := strings.Split(txt, "\n")
+	for i, l := range lines {
+		if strings.TrimSpace(l) == "" || strings.Contains(l, "|") || strings.Contains(l, "\"") || strings.Contains(l, "'") || strings.HasSuffix(l, "\\") {
+			continue
+		}
+		if rapid.IntRange(0, 3).Draw(t, "cmt") == 0 {
+			lines[i] = l + " # note " + string(rune('a'+i%26))
+		}
+	}
+	return strings.Join(lines, "\n")
 }
 
 func TestC04(t *testing.T) {
